@@ -135,6 +135,11 @@ def run(ctx):
     # the explicit perturbation series the intermediate states are built from
     # are certified inside Coq (Models/RSPTCheck.v rspt_ok_sound)
     detspace.certify(ctx, "C03", [("mp", sd) for sd in seeds], max_order)
+    for sd in seeds:
+        sp_ = detspace.Space(3, 3, sd, canonical=True)
+        E_, psi_ = sp_.rspt("mp", max_order)
+        isr_explicit.certify_ortho(ctx, "C03", sp_, psi_, E_,
+                                   sorted({v for v, *_ in todo}), max_order)
     import concurrent.futures as cf
     import multiprocessing as mp_
     with cf.ProcessPoolExecutor(max_workers=12,
